@@ -80,6 +80,20 @@ func genLines(t *rapid.T, cmd string) []pbt.S {
 		n = rapid.IntRange(60, 1500).Draw(t, "nlines2")
 	}
 	out := make([]pbt.S, 0, n)
+	if cmd != "analyze" && rapid.IntRange(0, 24).Draw(t, "aligned") == 0 {
+		// fixed 32-byte records spanning 1-2 read buffers (128 KiB): every
+		// 4096th line ends exactly on a buffer boundary when read from one file
+		n = rapid.SampledFrom([]int{4096, 4100, 8192, 8200}).Draw(t, "nrecords")
+		for i := 0; i < n; i++ {
+			k := fmt.Sprintf("k%d", i%5)
+			rest := fmt.Sprintf(" s%d %d", i%3, 1+i%4)
+			for len(k)+len(rest) < 31 {
+				k += "p"
+			}
+			out = append(out, pbt.S(k+rest))
+		}
+		return out
+	}
 	// a small per-case vocabulary so that keys collide
 	nk := rapid.IntRange(1, 6).Draw(t, "nk")
 	var ks, ss []string
